@@ -149,6 +149,12 @@ impl<Wr: Write> Serializer for XmlSerializer<Wr> {
 
         self.writer.write_all(b"<")?;
         self.qual_name(&name)?;
+        // Register the bindings needed by the attribute names before the
+        // declarations are written, not while the attributes are written.
+        let attrs: Vec<AttrRef<'a>> = attrs.collect();
+        for (attr_name, _) in &attrs {
+            self.find_or_insert_ns(attr_name);
+        }
         if let Some(current_namespace) = self.namespace_stack.0.last() {
             for (prefix, url_opt) in current_namespace.get_scope_iter() {
                 self.writer.write_all(b" xmlns")?;
